@@ -48,6 +48,37 @@ var InterpretedStd = map[string]bool{
 	"unicode/utf8": true,
 }
 
+// forceInterp: functions of foreign (natively called) packages that are
+// executed from their SSA when symbolic data reaches them: bytes.Reader is the
+// reader behind pkg/io's ByteStream (input-variable text).
+var forceInterp = map[string]bool{
+	"bytes.NewReader":          true,
+	"(*bytes.Reader).Read":     true,
+	"(*bytes.Reader).Len":      true,
+	"(*bytes.Reader).Size":     true,
+	"(*bytes.Reader).ReadByte": true,
+}
+
+var forceInterpPkgs = []string{"bytes"}
+
+// interpretForeign: package-level function with symbolic arguments, or method
+// whose receiver lives on the interpreter's side (was created by such a call).
+func interpretForeign(fn *ssa.Function, args []value) bool {
+	if fn.Signature.Recv() != nil {
+		if len(args) == 0 {
+			return false
+		}
+		_, native := args[0].(*nativeObj)
+		return !native
+	}
+	for _, a := range args {
+		if containsSym(a) {
+			return true
+		}
+	}
+	return false
+}
+
 func isInterpPath(p string) bool {
 	return p == znPrefix || strings.HasPrefix(p, znPrefix+"/") || strings.HasPrefix(p, "zsym/harness") || InterpretedStd[p]
 }
@@ -89,6 +120,11 @@ func Load(dir string, overlay map[string][]byte, patterns ...string) (*World, er
 	sort.Slice(order, func(a, b int) bool { return order[a].Pkg.Path() < order[b].Pkg.Path() })
 	for _, p := range order {
 		p.Build()
+	}
+	for _, path := range forceInterpPkgs {
+		if p := w.byPath[path]; p != nil {
+			p.Build()
+		}
 	}
 	packages.Visit(initial, nil, func(p *packages.Package) {
 		if strings.HasPrefix(p.PkgPath, znPrefix) {
@@ -135,7 +171,7 @@ func (w *World) classify1(fn *ssa.Function) fnClass {
 	if w.interpPkg[p] {
 		return fnInterp
 	}
-	if fn.Synthetic != "" && fn.Blocks != nil {
+	if fn.Synthetic != "" && fn.Blocks != nil && fn.Name() != "init" {
 		return fnInterp
 	}
 	return fnForeign
